@@ -398,6 +398,85 @@ def with_nested_then_scope(rnd, i=None):
     return wrap % (a, ''.join(parts))
 
 
+SHORT = list('etnsoiarcl')          # the first names the renamer hands out: used as ORIGINAL names in every position
+VERSIONS = [0, 5, 2015, 2018, 2019, 2020]
+
+
+N_FLATTEN = 90       # contexts x shapes of flatten_blocks
+
+
+def flatten_blocks(rnd, k=None, first=False):
+    """blocks whose lexical bindings move into the enclosing scope when the statement list is optimised (else-block
+    after a flow statement, single-statement and nested blocks, labelled blocks, switch cases): the bindings must be in
+    the enclosing scope's list BEFORE that scope is renamed.  Original names are short names in every position."""
+    if first:
+        # the moved bindings are ORIGINALLY spelled like the very first names handed out (which go to the parameters)
+        L, M = rnd.sample(SHORT[:3], 2)
+        A, B, I, K = rnd.sample(SHORT[3:], 4)
+    else:
+        A, B, L, M, I, K = rnd.sample(SHORT[:7], 6)
+    flow_ctx = [
+        # (wrapper with %(body)s, flow statement that leaves)
+        ('function f(%(A)s,%(B)s){switch(%(A)s){case 1:%(body)sdefault:out("d",%(B)s)}}f(1,5);', 'break'),
+        ('function f(%(A)s,%(B)s){switch(%(A)s){case 0:out(0);case 1:%(body)s}out(%(A)s)}f(1,5);', 'break'),
+        ('function f(%(A)s,%(B)s){for(let %(I)s=0;%(I)s<2;%(I)s++){%(body)s}}f(1,5);', 'continue'),
+        ('function f(%(A)s,%(B)s){for(const %(I)s of [1,2]){%(body)s}}f(1,5);', 'break'),
+        ('function f(%(A)s,%(B)s){var %(I)s=0;while(%(I)s++<2){%(body)s}}f(1,5);', 'continue'),
+        ('function f(%(A)s,%(B)s){%(body)sout("end",%(A)s)}f(1,5);', 'return'),
+        ('function f(%(A)s,%(B)s){try{%(body)s}catch(%(I)s){out("c",%(A)s)}}f(1,5);', 'throw 0'),
+        ('var f=(%(A)s,%(B)s)=>{%(body)s};f(1,5);', 'return'),
+        ('var ob={m(%(A)s,%(B)s){do{%(body)s}while(0)}};ob.m(1,5);', 'break'),      # (not parenthesised: C02/paren-method)
+        ('function f(%(A)s,%(B)s){%(K)s:{%(body)s}}f(1,5);', 'break %(K)s'),
+    ]
+    decls = [
+        'let %(L)s=%(B)s*2;out(%(L)s,%(A)s,%(B)s);',
+        'const %(L)s=%(B)s*2,%(M)s=%(L)s+1;out(%(L)s,%(M)s,%(A)s);',
+        'let %(L)s=%(B)s;{let %(M)s=%(L)s+%(A)s;out(%(M)s)}out(%(L)s);',
+        'class %(L)s{static s=%(A)s}out(%(L)s.s,%(B)s);',
+        'let {%(L)s,k:%(M)s}={%(L)s:%(A)s,k:%(B)s};out(%(L)s,%(M)s);',
+        'const %(L)s=()=>%(A)s+%(B)s;let %(M)s=%(L)s();out(%(M)s);',
+    ]
+    shapes = [
+        'if(%(B)s<0)%(flow)s;else{%(d)s}',                 # else-block after a flow statement
+        'if(%(B)s<0){%(flow)s}else{%(d)s}',
+        'if(%(B)s>0){%(d)s}else %(flow)s;',
+        'if(%(B)s<0)%(flow)s;else if(%(A)s){%(d)s}',
+        '{%(d)s}',                                         # bare block
+        '{{%(d)s}}',
+        'if(%(A)s){%(d)s}',
+        '%(K)s:{%(d)sif(%(A)s)break %(K)s;out("x")}',
+        'if(%(B)s<0)%(flow)s;{%(d)s}',
+    ]
+    if k is None:
+        k = rnd.randrange(len(flow_ctx) * len(shapes))
+    assert len(flow_ctx) * len(shapes) == N_FLATTEN
+    w, flow = flow_ctx[k % len(flow_ctx)]
+    names = dict(A=A, B=B, L=L, M=M, I=I, K=K)
+    flow = flow % names
+    d = rnd.choice(decls) % names
+    shape = shapes[(k // len(flow_ctx)) % len(shapes)]
+    if 'break %s' % K in flow and '%(K)s:' in shape:
+        shape = shapes[0]
+    body = shape % dict(names, flow=flow, d=d)
+    return w % dict(names, body=body)
+
+
+def catch_unused(rnd):
+    """an unused catch parameter named like a short name; the catch block uses other variables (the parameter is
+    dropped from the syntax only for targets >= ES2019: crossed with js.Minifier.Version by the caller)"""
+    P, Q, V, W, X = rnd.sample(SHORT[:6], 5)
+    forms = [
+        'function f(%(P)s,%(Q)s){try{%(Q)s()}catch(%(V)s){%(P)s("failed",typeof %(W)s)}}f(out,function(){throw 1});',
+        'function f(%(P)s,%(Q)s){let %(W)s="W";try{%(Q)s()}catch(%(V)s){let %(X)s=%(W)s+"!";%(P)s(%(X)s,%(W)s)}finally{%(P)s("fin")}}f(out,function(){throw 1});',
+        'function f(%(P)s,%(Q)s){try{throw %(Q)s}catch(%(V)s){(function(%(X)s){%(P)s(%(X)s,%(Q)s)})("in")}}f(out,"q");',
+        'var f=(%(P)s,%(Q)s)=>{for(const %(W)s of [1,2]){try{throw %(W)s}catch(%(V)s){%(P)s(%(W)s,%(Q)s)}}};f(out,"q");',
+        'function f(%(P)s,%(Q)s){try{throw 1}catch(%(V)s){try{throw 2}catch(%(X)s){%(P)s(%(Q)s)}}}f(out,"q");',
+        'function f(%(P)s,%(Q)s){try{throw 1}catch(%(V)s){%(P)s(%(V)s,%(Q)s)}}f(out,"q");',        # used: control
+        'function f(%(P)s,%(Q)s){try{throw {%(W)s:1}}catch({%(W)s:%(V)s}){%(P)s(%(Q)s)}}f(out,"q");',
+    ]
+    return rnd.choice(forms) % dict(P=P, Q=Q, V=V, W=W, X=X)
+
+
 def module_program(rnd):
     a, b, c, d = rnd.sample(FIRST + ['x', 'y'], 4)
     forms = [
@@ -580,7 +659,7 @@ class _Gen:
         r = self.r
         k = r.choice(['func', 'func', 'arrow', 'block', 'block', 'for', 'forof', 'catch', 'switch', 'method',
                       'named', 'getter', 'if', 'labeled', 'classm', 'gen', 'forpat', 'forvar', 'forin', 'catchpat',
-                      'switch2'])
+                      'switch2', 'elseblock', 'catchunused', 'bare'])
         if k in ('func', 'arrow', 'method', 'named', 'classm', 'gen'):
             saved_withfn = self.withfn
             self.withfn = self.with_program and not self.strict and k != 'classm' and r.random() < 0.3
@@ -631,6 +710,17 @@ class _Gen:
             return '%s:{{%s}break %s}' % (lb, self.scope(depth, False, set(), no_var), lb)
         if k == 'switch':
             return 'switch(1){case 1:%s}' % self.scope(depth, False, set(), no_var)
+        if k == 'elseblock':
+            # the else-block is flattened into the surrounding statement list (labelled block, switch case or loop body)
+            a = self.scope(depth, False, set(), no_var)
+            lb = r.choice(FN_POOL)
+            return r.choice(['%(l)s:{if(out.no)break %(l)s;else{%(a)s}}', 'switch(1){case 1:if(out.no)break;else{%(a)s}}',
+                             'for(const %(l)s of [1]){if(out.no)continue;else{%(a)s}}', 'do{if(out.no)break;else{%(a)s}}while(0);']) % dict(l=lb, a=a)
+        if k == 'bare':
+            return r.choice(['{{%s}}', 'if(out){{%s}}']) % self.scope(depth, False, set(), no_var)
+        if k == 'catchunused':
+            v = r.choice(self.lpool())
+            return 'try{throw 1}catch(%s){%s}' % (v, self.scope(depth, False, {v}, no_var | {v}))
         if k == 'switch2':
             a = self.scope(depth, False, set(), no_var)
             return 'switch(2){case 1:out("no");case 2:%sdefault:%s}' % (a, self.uses(1))
